@@ -24,9 +24,8 @@ import (
 // material are real files for set-ups handed to the real binary, so that the
 // ONLY reason to refuse them is the invalid class under test.
 type material struct {
-	dir                        string
-	cert, key, ca, htpasswd    string
-	clientCert, clientKey, bad string
+	dir                     string
+	cert, key, ca, htpasswd string
 }
 
 func writePEM(path, typ string, der []byte) {
